@@ -1,44 +1,1250 @@
+// C07 — transaction and block atomicity.
+//
+// O1 (proposer path): on every state reachable by a small recipe BFS, EVERY block of <= 3
+// transactions drawn from {4 succeeding, 6 failing} templates is run through the proposer
+// path (ApplyBlock(allowOversize=true) on a Copy of the FSM, what Mempool.CheckMempool does).
+// The full raw state, header (state root, tx root, counters), tx results, events and the
+// indexer content written by transactions must equal those of the SAME block with the
+// failing (and size-excluded) transactions deleted, run through the proposer path and
+// through the replica path (ApplyBlock(false)). Verdicts (which tx fails / is excluded for
+// size) are predicted independently from the template definition.
+//
+// O2 (rejection, direct path): blocks that the replica path refuses at every stage
+// reachable without a controller (last-certificate payload / signature / quorum, failing or
+// undecodable or duplicate or oversize transaction inside a replica block, every header
+// field altered, abort between IndexQC / IndexBlock and Commit) must leave the working
+// state of the live FSM, the committed state (read-only view), the store version and the
+// block / certificate index unchanged, and the honest block must still validate to the
+// header computed before the rejection and commit to its root.
 package main
 
 import (
+	"bytes"
+	"encoding/hex"
 	"fmt"
 	"math"
+	"sort"
+	"strings"
 	"time"
 
+	"github.com/canopy-network/canopy/fsm"
 	"github.com/canopy-network/canopy/lib"
+	"github.com/canopy-network/canopy/lib/crypto"
 
 	"verifharness/c07lib"
 	"verifharness/env"
+	"verifharness/mc"
 )
 
-func main() {
-	g := c07lib.Genesis(0)
-	c, err := env.NewChain(g)
+// ---------------------------------------------------------------------------------------
+// configurations
+
+type config struct {
+	name      string
+	sizeExtra uint64 // 0 = default 1 MB block
+}
+
+var configs = map[string]config{
+	"std":   {"std", 0},
+	"small": {"small", 900}, // room for e.g. one certificate tx + one send, or three sends
+}
+
+// ---------------------------------------------------------------------------------------
+// recipes (honest blocks that move the chain to other states)
+
+var recipeNames = []string{"marker", "cert2+ds", "stake+editstake", "chain1-nonsigner+ds-result", "dao+pause"}
+
+func tstamp(h uint64, slot, occ int) uint64 {
+	return c07lib.BaseTime + h*10_000 + uint64(slot)*100 + uint64(occ)
+}
+
+func keyIndexForPub(pub []byte) int {
+	for i := 0; i < 64; i++ {
+		if bytes.Equal(env.BLS(i).PublicKey().Bytes(), pub) {
+			return i
+		}
+	}
+	return -1
+}
+
+func lastChain2Height(c *env.Chain) uint64 {
+	d, err := c.FSM.GetCommitteeData(c07lib.Chain2)
+	if err != nil || d == nil {
+		return 0
+	}
+	return d.LastChainHeightUpdated
+}
+
+func applyRecipe(c *env.Chain, r int) error {
+	h := c.Height()
+	txs := [][]byte{c07lib.Send(6, 7, 7, h, tstamp(h, 90, 0))}
+	spec := env.BlockSpec{Proposer: 0}
+	switch r {
+	case 0:
+	case 1:
+		tx, err := c07lib.CertResultsTx(c, c07lib.CertSpec{ChainHeight: lastChain2Height(c) + 1, RootHeight: h, Proposer: 0, NonSigners: 1, RewardTo: 5,
+			DoubleSigners: []*lib.DoubleSigner{{Id: env.BLS(2).PublicKey().Bytes(), Heights: []uint64{h*100 + 50}}},
+			Checkpoint:    &lib.Checkpoint{Height: h*1000 + 1, BlockHash: crypto.Hash([]byte("cp"))}}, h, tstamp(h, 91, 0))
+		if err != nil {
+			return err
+		}
+		txs = append(txs, tx)
+	case 2:
+		v, err := c.FSM.GetValidator(env.Addr(env.BLS(1)))
+		if err != nil {
+			return err
+		}
+		txs = append(txs, c07lib.Stake(30+int(h), 400_000, []uint64{env.ChainID, c07lib.Chain2}, h, tstamp(h, 92, 0)),
+			c07lib.EditStake(1, v.StakedAmount+5, v.Committees, h, tstamp(h, 93, 0)))
+	case 3:
+		vs, err := c.Committee()
+		if err != nil {
+			return err
+		}
+		n := len(vs.ValidatorSet.ValidatorSet)
+		if n < 4 {
+			return fmt.Errorf("committee too small for a non-signer")
+		}
+		for i, v := range vs.ValidatorSet.ValidatorSet {
+			if i < n-1 {
+				spec.Signers = append(spec.Signers, keyIndexForPub(v.PublicKey))
+			}
+		}
+		spec.Results = func(c *env.Chain, blk *lib.Block, br *lib.BlockResult) *lib.CertificateResult {
+			res := env.DefaultResults(c, blk, br)
+			res.SlashRecipients.DoubleSigners = []*lib.DoubleSigner{{Id: env.BLS(3).PublicKey().Bytes(), Heights: []uint64{blk.BlockHeader.Height}}}
+			return res
+		}
+	case 4:
+		v, err := c.FSM.GetValidator(env.Addr(env.BLS(3)))
+		if err != nil {
+			return err
+		}
+		if v.MaxPausedHeight != 0 || v.UnstakingHeight != 0 {
+			return fmt.Errorf("validator 3 not pausable")
+		}
+		txs = append(txs, c07lib.DAOTransfer(5, 1234, false, h, tstamp(h, 94, 0)),
+			c07lib.MkTx(env.BLS(3), &fsm.MessagePause{Address: env.Addr(env.BLS(3)).Bytes()}, c07lib.Fee, h, tstamp(h, 95, 0), ""))
+	}
+	spec.Txs = txs
+	cm, err := c.Step(spec)
+	if err != nil {
+		return fmt.Errorf("recipe %s: %v", recipeNames[r], err)
+	}
+	if len(cm.Failed) != 0 {
+		return fmt.Errorf("recipe %s: %d txs failed: %v", recipeNames[r], len(cm.Failed), cm.Failed[0].Error)
+	}
+	return nil
+}
+
+func buildState(cfg config, path []int) (*env.Chain, error) {
+	c, err := env.NewChain(c07lib.Genesis(cfg.sizeExtra))
+	if err != nil {
+		return nil, err
+	}
+	for _, r := range path {
+		if e := applyRecipe(c, r); e != nil {
+			c.Close()
+			return nil, e
+		}
+	}
+	return c, nil
+}
+
+// ---------------------------------------------------------------------------------------
+// transaction templates
+
+type tmpl struct {
+	name  string
+	fail  string // "" succeeds | "check" fails in the first CheckTx/signature pass | "exec" fails inside ApplyTransaction
+	where string // where the template is intended to fail (verified by instrumentation, see failurePoint)
+	build func(w *world, occ, pos int) []byte
+}
+
+type world struct {
+	c       *env.Chain
+	h       uint64
+	stake1  uint64
+	comm1   []uint64
+	lastC2  uint64
+	replay  []byte
+	maxSize uint64
+}
+
+func newWorld(c *env.Chain) (*world, error) {
+	w := &world{c: c, h: c.Height(), lastC2: lastChain2Height(c)}
+	v, err := c.FSM.GetValidator(env.Addr(env.BLS(1)))
+	if err != nil {
+		return nil, err
+	}
+	w.stake1, w.comm1 = v.StakedAmount, v.Committees
+	if w.h > 1 {
+		if cm := c.Committed[w.h-1]; cm != nil && len(cm.Block.Transactions) > 0 {
+			w.replay = cm.Block.Transactions[0]
+		}
+	}
+	ms, err := c.FSM.GetMaxBlockSize()
+	if err != nil {
+		return nil, err
+	}
+	w.maxSize = ms
+	return w, nil
+}
+
+func (w *world) cert(pos int, bad bool, t uint64) []byte {
+	ds := []*lib.DoubleSigner{{Id: env.BLS(2).PublicKey().Bytes(), Heights: []uint64{w.h*100 + uint64(pos)}}}
+	cpH := w.h*1000 + 10 + uint64(pos)
+	if bad {
+		// second entry repeats the first: valid statelessly, invalid once the first has been indexed
+		ds = append(ds, &lib.DoubleSigner{Id: env.BLS(2).PublicKey().Bytes(), Heights: []uint64{w.h*100 + uint64(pos)}})
+		cpH += 500
+	}
+	tx, err := c07lib.CertResultsTx(w.c, c07lib.CertSpec{ChainHeight: w.lastC2 + 1 + uint64(pos), RootHeight: w.h, Proposer: 0, NonSigners: 1, RewardTo: 5,
+		DoubleSigners: ds, Checkpoint: &lib.Checkpoint{Height: cpH, BlockHash: crypto.Hash([]byte{byte(pos)})}}, w.h, t)
 	if err != nil {
 		panic(err)
 	}
-	defer c.Close()
-	fmt.Println("height", c.Height(), "maxhdr", lib.MaxBlockHeaderSize)
-	h := c.Height()
-	t0 := time.Now()
-	s1 := c07lib.Send(4, 5, 1000, h, c07lib.BaseTime+1)
-	f1 := c07lib.Send(4, 5, 1<<62, h, c07lib.BaseTime+2)
-	f2 := c07lib.DAOTransfer(5, math.MaxUint64-5, true, h, c07lib.BaseTime+3)
-	cert, e := c07lib.CertResultsTx(c, c07lib.CertSpec{ChainHeight: 1, RootHeight: h, Proposer: 0, NonSigners: 1, RewardTo: 5}, h, c07lib.BaseTime+4)
-	if e != nil {
-		panic(e)
+	return tx
+}
+
+var templates = []tmpl{
+	{name: "send", build: func(w *world, occ, pos int) []byte { return c07lib.Send(4, 5, 1000+uint64(occ), w.h, tstamp(w.h, 0, occ)) }},
+	{name: "cert2", build: func(w *world, occ, pos int) []byte { return w.cert(pos, false, tstamp(w.h, 1, pos)) }},
+	{name: "stake", build: func(w *world, occ, pos int) []byte {
+		return c07lib.Stake(10+3*int(w.h)+occ, 500_000, []uint64{c07lib.Chain2}, w.h, tstamp(w.h, 2, occ))
+	}},
+	{name: "editstake", build: func(w *world, occ, pos int) []byte {
+		return c07lib.EditStake(1, w.stake1+1+uint64(occ), w.comm1, w.h, tstamp(w.h, 3, occ))
+	}},
+	{name: "F:send-overdraw", fail: "exec", where: "HandleMessageSend AccountSub, after the fee moved account->pool",
+		build: func(w *world, occ, pos int) []byte { return c07lib.Send(4, 5, 1<<62, w.h, tstamp(w.h, 4, occ)) }},
+	{name: "F:dao-mint-wrap", fail: "exec", where: "HandleMessageDAOTransfer PoolSub, after fee, AddToTotalSupply and PoolAdd of the mint",
+		build: func(w *world, occ, pos int) []byte {
+			return c07lib.DAOTransfer(5, math.MaxUint64-5, true, w.h, tstamp(w.h, 5, occ))
+		}},
+	{name: "F:cert2-bad-2nd-ds", fail: "exec", where: "HandleDoubleSigners second entry, after fee, checkpoint index, (window end: non-signer pause+slash+tracker), non-signer counters, first double signer indexed",
+		build: func(w *world, occ, pos int) []byte { return w.cert(pos, true, tstamp(w.h, 6, pos)) }},
+	{name: "F:bad-signature", fail: "check", where: "batch signature verification, never executed",
+		build: func(w *world, occ, pos int) []byte {
+			raw := c07lib.Send(4, 5, 2000+uint64(occ), w.h, tstamp(w.h, 7, occ))
+			tx := new(lib.Transaction)
+			if err := lib.Unmarshal(raw, tx); err != nil {
+				panic(err)
+			}
+			// swap in the (valid) signature of a different message
+			other := new(lib.Transaction)
+			_ = lib.Unmarshal(c07lib.Send(4, 5, 3000+uint64(occ), w.h, tstamp(w.h, 7, occ+50)), other)
+			tx.Signature.Signature = other.Signature.Signature
+			bz, _ := lib.Marshal(tx)
+			return bz
+		}},
+	{name: "F:replay", fail: "exec", where: "CheckReplay inside ApplyTransaction (tx hash already indexed), before the fee; without history (height 1) or on a repeated occurrence a wrong-chain-id tx instead, which fails in the first check pass",
+		build: func(w *world, occ, pos int) []byte {
+			if w.replay != nil && occ == 0 {
+				return w.replay
+			}
+			return c07lib.MkTxOn(env.BLS(4), &fsm.MessageSend{FromAddress: env.Addr(env.BLS(4)).Bytes(), ToAddress: env.Addr(env.BLS(5)).Bytes(), Amount: 4000 + uint64(occ)},
+				c07lib.Fee, w.h, tstamp(w.h, 8, occ), "", 7)
+		}},
+	{name: "F:editstake-overdraw", fail: "exec", where: "HandleMessageEditStake AccountSub, after fee and GetValidator",
+		build: func(w *world, occ, pos int) []byte {
+			return c07lib.EditStake(1, 1<<62, w.comm1, w.h, tstamp(w.h, 9, occ))
+		}},
+}
+
+func (w *world) failStage(ti, occ int) string {
+	t := templates[ti]
+	if t.name == "F:replay" && !(w.replay != nil && occ == 0) {
+		return "check"
 	}
-	fmt.Println("tx sizes", len(s1), len(f1), len(f2), len(cert), "build", time.Since(t0))
-	for i := 0; i < 3; i++ {
-		t0 = time.Now()
-		p := c07lib.ProposeOnCopy(c, [][]byte{s1, f1, f2, cert}, 0, true)
-		fmt.Println("propose", time.Since(t0), p.Err, "kept", len(p.Kept), "failed", len(p.Res.Failed), "state", len(p.State))
-		for _, f := range p.Res.Failed {
-			fmt.Println("  failed:", f.Error)
+	return t.fail
+}
+
+// instantiate builds the transactions of a block given template indices.
+func (w *world) instantiate(seq []int) (txs [][]byte, stage []string) {
+	occ := map[int]int{}
+	for pos, ti := range seq {
+		txs = append(txs, templates[ti].build(w, occ[ti], pos))
+		stage = append(stage, w.failStage(ti, occ[ti]))
+		occ[ti]++
+	}
+	return
+}
+
+// predict computes independently of canopy which transactions are kept: first-pass failures are
+// skipped before the size check; the first transaction that does not fit switches the rest
+// of the block to "excluded"; executed failures never count towards the size.
+func (w *world) predict(txs [][]byte, stage []string) (kept [][]byte, failed, oversized []int) {
+	var acc uint64
+	over := false
+	for i, tx := range txs {
+		if stage[i] == "check" {
+			failed = append(failed, i)
+			continue
+		}
+		if !over && uint64(len(tx))+acc > w.maxSize {
+			over = true
+		}
+		if stage[i] == "exec" {
+			failed = append(failed, i)
+			continue
+		}
+		if over {
+			oversized = append(oversized, i)
+			continue
+		}
+		kept = append(kept, tx)
+		acc += uint64(len(tx))
+	}
+	return
+}
+
+// ---------------------------------------------------------------------------------------
+// observation of one proposer-path run
+
+type obs struct {
+	hdrHash string
+	hdr     string
+	state   string
+	results string
+	events  string
+	index   string
+	kept    string
+}
+
+func hashAll(bzs [][]byte) string {
+	var sb strings.Builder
+	for _, b := range bzs {
+		sb.WriteString(crypto.HashString(b)[:16])
+		sb.WriteByte(',')
+	}
+	return sb.String()
+}
+
+func dumpKVs(kvs []env.KV) string {
+	var sb strings.Builder
+	for _, kv := range kvs {
+		fmt.Fprintf(&sb, "%x=%x\n", kv.K, kv.V)
+	}
+	return sb.String()
+}
+
+func observe(p *c07lib.Proposal) obs {
+	o := obs{hdrHash: hex.EncodeToString(p.Header.Hash), state: dumpKVs(p.State), index: p.Index, kept: hashAll(p.Kept)}
+	hb, _ := lib.MarshalJSON(p.Header)
+	o.hdr = string(hb)
+	var sb strings.Builder
+	for _, r := range p.Res.Results {
+		bz, _ := lib.Marshal(r)
+		fmt.Fprintf(&sb, "%x\n", bz)
+	}
+	o.results = sb.String()
+	sb.Reset()
+	for _, e := range p.Res.Events {
+		bz, _ := lib.Marshal(e)
+		fmt.Fprintf(&sb, "%x\n", bz)
+	}
+	o.events = sb.String()
+	return o
+}
+
+func firstDiff(a, b obs) string {
+	switch {
+	case a.kept != b.kept:
+		return "kept-tx-list"
+	case a.state != b.state:
+		return "raw-state"
+	case a.index != b.index:
+		return "indexer"
+	case a.results != b.results:
+		return "tx-results"
+	case a.events != b.events:
+		return "events"
+	case a.hdrHash != b.hdrHash || a.hdr != b.hdr:
+		return "header"
+	}
+	return ""
+}
+
+// stateDiff lists the keys that differ between two dumps (for the violation text).
+func stateDiff(a, b string) string {
+	am, bm := map[string]string{}, map[string]string{}
+	for _, l := range strings.Split(a, "\n") {
+		if i := strings.IndexByte(l, '='); i > 0 {
+			am[l[:i]] = l[i+1:]
 		}
 	}
-	p := c07lib.ProposeOnCopy(c, [][]byte{s1, f1, f2, cert}, 0, true)
-	t0 = time.Now()
-	root, err := c07lib.ReplicaCommit(c, c07lib.BlockFromProposal(p), 0, nil, "")
-	fmt.Println("commit", time.Since(t0), err, len(root), c.Height())
+	for _, l := range strings.Split(b, "\n") {
+		if i := strings.IndexByte(l, '='); i > 0 {
+			bm[l[:i]] = l[i+1:]
+		}
+	}
+	var out []string
+	for k, v := range am {
+		if bm[k] != v {
+			out = append(out, fmt.Sprintf("key %s: got %.80s want %.80s", k, v, bm[k]))
+		}
+	}
+	for k, v := range bm {
+		if _, ok := am[k]; !ok {
+			out = append(out, fmt.Sprintf("key %s: missing, want %.80s", k, v))
+		}
+	}
+	sort.Strings(out)
+	if len(out) > 6 {
+		out = append(out[:6], fmt.Sprintf("... %d keys differ", len(out)))
+	}
+	return strings.Join(out, "; ")
+}
+
+// ---------------------------------------------------------------------------------------
+// jobs
+
+type Job struct {
+	// BFS part (mc.BFSJob wire form)
+	Tag  string `json:"t"`
+	Path []int  `json:"p"`
+	// C07 jobs
+	Kind   string `json:"kind,omitempty"` // "" = BFS exec | "o1" | "o2" | "fp" | "replay"
+	Cfg    string `json:"cfg,omitempty"`
+	First  int    `json:"first,omitempty"`
+	MaxLen int    `json:"maxlen,omitempty"`
+	Seq    []int  `json:"seq,omitempty"`
+}
+
+type Result struct {
+	// BFS part (mc.ExecResult wire form)
+	Key   string    `json:"k"`
+	OK    bool      `json:"ok"`
+	Viols []mc.Viol `json:"v,omitempty"`
+	Info  string    `json:"i,omitempty"`
+	// C07 part
+	Blocks        int               `json:"blocks,omitempty"`
+	WithFailing   int               `json:"with_failing,omitempty"`
+	WithOversize  int               `json:"with_oversize,omitempty"`
+	FailingTxs    int               `json:"failing_txs,omitempty"`
+	ReplicaRuns   int               `json:"replica_runs,omitempty"`
+	Commits       int               `json:"commits,omitempty"`
+	DistinctPost  int               `json:"distinct_post,omitempty"`
+	Rejections    int               `json:"rejections,omitempty"`
+	RejStages     map[string]int    `json:"rej_stages,omitempty"`
+	Accepted      []string          `json:"accepted,omitempty"`
+	FailurePoints map[string]string `json:"fps,omitempty"`
+	Sample        any               `json:"sample,omitempty"`
+	Notes         []string          `json:"notes,omitempty"`
+	Err           string            `json:"err,omitempty"`
+}
+
+type replayArt struct {
+	Kind    string   `json:"kind"`
+	Cfg     string   `json:"cfg"`
+	Recipes []string `json:"recipes"`
+	Path    []int    `json:"path"`
+	Block   []string `json:"block,omitempty"`
+	Seq     []int    `json:"seq,omitempty"`
+	Case    string   `json:"case,omitempty"`
+}
+
+func recipeList(path []int) []string {
+	out := []string{}
+	for _, r := range path {
+		out = append(out, recipeNames[r])
+	}
+	return out
+}
+
+func seqNames(seq []int) []string {
+	out := []string{}
+	for _, t := range seq {
+		out = append(out, templates[t].name)
+	}
+	return out
+}
+
+func handle(j Job) (res Result) {
+	defer func() {
+		if p := recover(); p != nil {
+			res.Err = fmt.Sprintf("panic: %v", p)
+			res.Viols = append(res.Viols, mc.Viol{Sig: "C07:harness-panic", What: fmt.Sprintf("job %+v: %v", j, p)})
+		}
+	}()
+	switch j.Kind {
+	case "":
+		return bfsExec(j)
+	case "o1":
+		return o1Job(j)
+	case "o2":
+		return o2Job(j)
+	case "fp":
+		return fpJob(j)
+	}
+	return Result{Err: "unknown job kind"}
+}
+
+func bfsExec(j Job) Result {
+	c, err := buildState(configs[j.Tag], j.Path)
+	if err != nil {
+		return Result{OK: false, Info: err.Error()}
+	}
+	defer c.Close()
+	k, e := env.StateKey(c.FSM)
+	if e != nil {
+		return Result{OK: false, Info: e.Error()}
+	}
+	idx, _ := c07lib.IndexObs(c.Store)
+	return Result{OK: true, Key: mc.Hash(fmt.Sprintf("%d|%s|%s", c.Height(), k, idx))}
+}
+
+// enumerate all template sequences of length 1..maxLen starting with first.
+func sequences(first, maxLen int) [][]int {
+	var out [][]int
+	var rec func(cur []int)
+	rec = func(cur []int) {
+		out = append(out, append([]int{}, cur...))
+		if len(cur) == maxLen {
+			return
+		}
+		for t := range templates {
+			rec(append(cur, t))
+		}
+	}
+	rec([]int{first})
+	return out
+}
+
+type refRun struct {
+	o   obs
+	err string
+}
+
+func o1Job(j Job) (res Result) {
+	cfg := configs[j.Cfg]
+	c, err := buildState(cfg, j.Path)
+	if err != nil {
+		return Result{Err: err.Error()}
+	}
+	defer c.Close()
+	w, err := newWorld(c)
+	if err != nil {
+		return Result{Err: err.Error()}
+	}
+	seqs := sequences(j.First, j.MaxLen)
+	if j.Seq != nil {
+		seqs = [][]int{j.Seq}
+	}
+	memo := map[string]*refRun{}
+	posts := map[string]bool{}
+	viol := func(sig, what string, seq []int) {
+		res.Viols = append(res.Viols, mc.Viol{Sig: sig, What: what,
+			Replay: replayArt{Kind: "o1", Cfg: cfg.name, Recipes: recipeList(j.Path), Path: j.Path, Block: seqNames(seq), Seq: seq}})
+	}
+	var lastP *c07lib.Proposal
+	var lastFailed [][]byte
+	for _, seq := range seqs {
+		txs, stage := w.instantiate(seq)
+		wantKept, wantFailed, wantOver := w.predict(txs, stage)
+		if len(wantFailed) == 0 && len(wantOver) == 0 {
+			continue // nothing is dropped from this block
+		}
+		res.Blocks++
+		if len(wantFailed) > 0 {
+			res.WithFailing++
+			res.FailingTxs += len(wantFailed)
+		}
+		if len(wantOver) > 0 {
+			res.WithOversize++
+		}
+		class := classOf(seq, wantFailed, wantOver)
+		p := c07lib.ProposeOnCopy(c, txs, 0, true)
+		if p.Err != nil {
+			viol("C07:proposer-path:apply-block-error:"+class, fmt.Sprintf("state=%v cfg=%s block=%v: proposer-path ApplyBlock returned %v", recipeList(j.Path), cfg.name, seqNames(seq), p.Err), seq)
+			continue
+		}
+		// verdicts
+		var gotFailed []string
+		for _, f := range p.Res.Failed {
+			gotFailed = append(gotFailed, crypto.HashString(f.GetBytes())[:16])
+		}
+		var expFailed []string
+		for _, i := range wantFailed {
+			expFailed = append(expFailed, crypto.HashString(txs[i])[:16])
+		}
+		if strings.Join(gotFailed, ",") != strings.Join(expFailed, ",") || hashAll(p.Kept) != hashAll(wantKept) || len(p.Res.Oversized) != len(wantOver) {
+			var errs []string
+			for _, f := range p.Res.Failed {
+				errs = append(errs, strings.ReplaceAll(f.Error.Error(), "\n", " "))
+			}
+			viol("C07:proposer-path:verdict-differs:"+class, fmt.Sprintf("state=%v cfg=%s block=%v: canopy failed=%v kept=%d oversized=%d, independent prediction failed-positions=%v kept=%d oversized-positions=%v (a transaction succeeded/failed/was excluded depending on a dropped neighbour); errors=%v",
+				recipeList(j.Path), cfg.name, seqNames(seq), gotFailed, len(p.Kept), len(p.Res.Oversized), wantFailed, len(wantKept), wantOver, errs), seq)
+			continue
+		}
+		o := observe(p)
+		posts[o.hdrHash] = true
+		// reference: the same block with the dropped transactions deleted
+		key := hashAll(wantKept)
+		ref := memo[key]
+		if ref == nil {
+			ref = &refRun{}
+			memo[key] = ref
+			rp := c07lib.ProposeOnCopy(c, wantKept, 0, true)
+			if rp.Err != nil {
+				ref.err = "proposer path on reduced block: " + rp.Err.Error()
+			} else if len(rp.Res.Failed) != 0 || len(rp.Res.Oversized) != 0 {
+				ref.err = fmt.Sprintf("reduced block drops transactions itself (failed=%d oversized=%d)", len(rp.Res.Failed), len(rp.Res.Oversized))
+			} else {
+				ref.o = observe(rp)
+				// replica path: sequential application of exactly the kept transactions
+				c.FSM.Reset()
+				_, e := c07lib.ReplicaApply(c, c07lib.BlockFromProposal(rp))
+				res.ReplicaRuns++
+				if e != nil {
+					ref.err = "replica path refuses the reduced block: " + e.Error()
+				} else {
+					kvs, e2 := env.RawState(c.FSM)
+					idx, _ := c07lib.IndexObs(c.Store)
+					if e2 != nil {
+						ref.err = e2.Error()
+					} else if d := dumpKVs(kvs); d != ref.o.state {
+						ref.err = "replica-path state of the reduced block differs from its proposer-path state: " + stateDiff(d, ref.o.state)
+					} else if idx != ref.o.index {
+						ref.err = "replica-path indexer content of the reduced block differs from proposer path"
+					}
+				}
+				c.FSM.Reset()
+			}
+		}
+		if ref.err != "" {
+			viol("C07:reference-run-failed:"+class, fmt.Sprintf("state=%v cfg=%s block=%v reduced=%d txs: %s", recipeList(j.Path), cfg.name, seqNames(seq), len(wantKept), ref.err), seq)
+			continue
+		}
+		if d := firstDiff(o, ref.o); d != "" {
+			detail := ""
+			if d == "raw-state" {
+				detail = stateDiff(o.state, ref.o.state)
+			} else if d == "header" {
+				detail = fmt.Sprintf("got %s want %s", o.hdr, ref.o.hdr)
+			} else if d == "indexer" {
+				detail = fmt.Sprintf("got %s want %s", o.index, ref.o.index)
+			}
+			viol("C07:proposer-path:"+d+"-differs:"+class, fmt.Sprintf("state=%v cfg=%s height=%d block=%v (failing at positions %v, size-excluded at %v): after the proposer-path ApplyBlock the %s differs from the same block with those transactions deleted: %s",
+				recipeList(j.Path), cfg.name, w.h, seqNames(seq), wantFailed, wantOver, d, detail), seq)
+			continue
+		}
+		lastP = p
+		lastFailed = nil
+		for _, i := range wantFailed {
+			lastFailed = append(lastFailed, txs[i])
+		}
+		for _, i := range wantOver {
+			lastFailed = append(lastFailed, txs[i])
+		}
+		if res.Sample == nil && len(seq) == j.MaxLen && len(wantFailed) > 0 && len(wantKept) > 0 {
+			res.Sample = map[string]any{"cfg": cfg.name, "state": recipeList(j.Path), "height": w.h, "block": seqNames(seq), "failed_positions": wantFailed,
+				"size_excluded_positions": wantOver, "kept": len(wantKept), "state_root": hex.EncodeToString(p.Header.StateRoot), "state_keys": len(p.State)}
+		}
+	}
+	res.DistinctPost = len(posts)
+	// commit the last block as a replica would and compare the committed state / index
+	if lastP != nil && len(res.Viols) == 0 {
+		blk := c07lib.BlockFromProposal(lastP)
+		if _, e := c07lib.ReplicaCommit(c, blk, 0, nil, ""); e != nil {
+			viol("C07:commit-of-proposed-block-refused", fmt.Sprintf("state=%v cfg=%s: the block produced by the proposer path is refused by the replica path: %v", recipeList(j.Path), cfg.name, e), nil)
+		} else {
+			res.Commits++
+			kvs, _ := env.RawState(c.FSM)
+			if d := dumpKVs(kvs); d != dumpKVs(lastP.State) {
+				viol("C07:committed-state-differs-from-proposed", fmt.Sprintf("state=%v cfg=%s: %s", recipeList(j.Path), cfg.name, stateDiff(d, dumpKVs(lastP.State))), nil)
+			}
+			for _, tx := range lastFailed {
+				if r, e := c.Store.GetTxByHash(crypto.Hash(tx)); e == nil && r != nil && r.TxHash != "" && r.Height == blk.BlockHeader.Height {
+					viol("C07:dropped-tx-indexed", fmt.Sprintf("state=%v cfg=%s: dropped transaction %s is indexed at height %d", recipeList(j.Path), cfg.name, r.TxHash, r.Height), nil)
+				}
+			}
+			for _, tx := range lastP.Kept {
+				if r, e := c.Store.GetTxByHash(crypto.Hash(tx)); e != nil || r == nil || r.TxHash == "" {
+					viol("C07:kept-tx-not-indexed", fmt.Sprintf("state=%v cfg=%s: kept transaction %x not indexed", recipeList(j.Path), cfg.name, crypto.Hash(tx)), nil)
+				}
+			}
+		}
+	}
+	return
+}
+
+// classOf is the canonical class of a block for violation signatures.
+func classOf(seq []int, failed, over []int) string {
+	set := map[string]bool{}
+	for _, i := range failed {
+		set[strings.TrimPrefix(templates[seq[i]].name, "F:")] = true
+	}
+	var names []string
+	for n := range set {
+		names = append(names, n)
+	}
+	sort.Strings(names)
+	s := "fail=" + strings.Join(names, "+")
+	if len(over) > 0 {
+		s += ":size-excluded"
+	}
+	return s
+}
+
+// ---------------------------------------------------------------------------------------
+// failure-point instrumentation: run one failing transaction by hand inside a nested store
+// transaction on a throw-away copy and report which state prefixes were dirty when it failed.
+
+var prefixNames = map[byte]string{1: "account", 2: "pool", 3: "validator", 4: "committee", 5: "unstaking", 6: "paused", 7: "params", 8: "non-signer",
+	9: "last-proposers", 10: "supply", 11: "delegate", 12: "committees-data", 13: "order-book", 14: "retired", 15: "dex"}
+
+func failurePoint(c *env.Chain, tx []byte, verifyOneByOne bool) string {
+	cp, err := c.FSM.Copy()
+	if err != nil {
+		return "copy: " + err.Error()
+	}
+	defer cp.Discard()
+	before, _ := env.RawState(cp)
+	idxBefore, _ := c07lib.IndexObs(cp.Store().(lib.StoreI))
+	if _, err = cp.TxnWrap(); err != nil {
+		return "txnwrap: " + err.Error()
+	}
+	bv := crypto.NewBatchVerifier(true)
+	if verifyOneByOne {
+		bv = nil // the first pass of ApplyTransactions verifies signatures for real; the execution pass uses a no-op verifier
+	}
+	_, _, e := cp.ApplyTransaction(0, tx, crypto.HashString(tx), bv)
+	after, _ := env.RawState(cp)
+	idxAfter, _ := c07lib.IndexObs(cp.Store().(lib.StoreI))
+	bm := map[string]string{}
+	for _, kv := range before {
+		bm[string(kv.K)] = string(kv.V)
+	}
+	dirty := map[string]int{}
+	for _, kv := range after {
+		if v, ok := bm[string(kv.K)]; !ok || v != string(kv.V) {
+			dirty[prefixOf(kv.K)]++
+		}
+		delete(bm, string(kv.K))
+	}
+	for k := range bm {
+		dirty[prefixOf([]byte(k))+"(deleted)"]++
+	}
+	var parts []string
+	for k, n := range dirty {
+		parts = append(parts, fmt.Sprintf("%s:%d", k, n))
+	}
+	sort.Strings(parts)
+	if idxAfter != idxBefore {
+		parts = append(parts, "indexer(double-signer/checkpoint)")
+	}
+	msg := "SUCCEEDED"
+	if e != nil {
+		msg = fmt.Sprintf("code=%d %s", e.Code(), e.Error()[strings.LastIndex(e.Error(), "Message:")+len("Message:"):])
+	}
+	return fmt.Sprintf("err[%s] dirty-at-failure[%s]", strings.TrimSpace(msg), strings.Join(parts, " "))
+}
+
+func prefixOf(k []byte) string {
+	segs := lib.DecodeLengthPrefixed(k)
+	if len(segs) == 0 || len(segs[0]) != 1 {
+		return "?"
+	}
+	if n, ok := prefixNames[segs[0][0]]; ok {
+		return n
+	}
+	return fmt.Sprintf("p%d", segs[0][0])
+}
+
+func fpJob(j Job) (res Result) {
+	c, err := buildState(configs[j.Cfg], j.Path)
+	if err != nil {
+		return Result{Err: err.Error()}
+	}
+	defer c.Close()
+	w, err := newWorld(c)
+	if err != nil {
+		return Result{Err: err.Error()}
+	}
+	res.FailurePoints = map[string]string{}
+	for ti, t := range templates {
+		if t.fail == "" {
+			continue
+		}
+		tx := t.build(w, 0, 0)
+		res.FailurePoints[t.name] = fmt.Sprintf("stage=%s %s", w.failStage(ti, 0), failurePoint(c, tx, w.failStage(ti, 0) == "check"))
+	}
+	return
+}
+
+// ---------------------------------------------------------------------------------------
+// O2: rejection
+
+type snapshot struct {
+	live, committed, index string
+	version                uint64
+}
+
+func takeSnapshot(c *env.Chain) (s snapshot, err lib.ErrorI) {
+	kvs, err := env.RawState(c.FSM)
+	if err != nil {
+		return
+	}
+	s.live = dumpKVs(kvs)
+	ro, err := c.FSM.TimeMachine(0)
+	if err != nil {
+		return
+	}
+	kvs, err = env.RawState(ro)
+	if ro != c.FSM {
+		ro.Discard()
+	}
+	if err != nil {
+		return
+	}
+	s.committed = dumpKVs(kvs)
+	// a second, independent committed view: a brand-new read-only store
+	rs, err := c.Store.NewReadOnly(c.Store.Version())
+	if err != nil {
+		return
+	}
+	s.index, err = c07lib.IndexObs(rs)
+	rs.Discard()
+	if err != nil {
+		return
+	}
+	li, err := c07lib.IndexObs(c.Store)
+	if err != nil {
+		return
+	}
+	s.index += "||live:" + li
+	s.version = c.Store.Version()
+	return
+}
+
+func cloneBlock(b *lib.Block) *lib.Block {
+	bz, _ := lib.Marshal(b)
+	nb := new(lib.Block)
+	_ = lib.Unmarshal(bz, nb)
+	return nb
+}
+
+type rejCase struct {
+	name   string
+	stage  string
+	mutate func(b *lib.Block) (skip bool)
+	abort  c07lib.Stage
+	rehash bool
+}
+
+func flip(b []byte) []byte {
+	o := append([]byte{}, b...)
+	if len(o) == 0 {
+		return []byte{1}
+	}
+	o[len(o)/2] ^= 0x01
+	return o
+}
+
+func o2Job(j Job) (res Result) {
+	cfg := configs[j.Cfg]
+	c, err := buildState(cfg, j.Path)
+	if err != nil {
+		return Result{Err: err.Error()}
+	}
+	defer c.Close()
+	w, err := newWorld(c)
+	if err != nil {
+		return Result{Err: err.Error()}
+	}
+	res.RejStages = map[string]int{}
+	viol := func(sig, what, cs string) {
+		res.Viols = append(res.Viols, mc.Viol{Sig: sig, What: what, Replay: replayArt{Kind: "o2", Cfg: cfg.name, Recipes: recipeList(j.Path), Path: j.Path, Case: cs}})
+	}
+	// the honest block: two succeeding transactions, produced by the proposer path
+	honestSeq := []int{0, 3}
+	if cfg.name == "small" {
+		honestSeq = []int{0, 0}
+	}
+	htxs, _ := w.instantiate(honestSeq)
+	hp := c07lib.ProposeOnCopy(c, htxs, 0, true)
+	if hp.Err != nil || len(hp.Res.Failed) != 0 || len(hp.Res.Oversized) != 0 {
+		return Result{Err: fmt.Sprintf("honest block not producible: %v", hp.Err)}
+	}
+	honest := c07lib.BlockFromProposal(hp)
+	pre, e := takeSnapshot(c)
+	if e != nil {
+		return Result{Err: e.Error()}
+	}
+	h := w.h
+
+	var cases []rejCase
+	if h > 1 {
+		cases = append(cases,
+			rejCase{name: "lastqc-blockhash-altered", stage: "check-last-certificate", mutate: func(b *lib.Block) bool {
+				b.BlockHeader.LastQuorumCertificate.BlockHash = flip(b.BlockHeader.LastQuorumCertificate.BlockHash)
+				return false
+			}, rehash: true},
+			rejCase{name: "lastqc-resultshash-altered", stage: "check-last-certificate", mutate: func(b *lib.Block) bool {
+				b.BlockHeader.LastQuorumCertificate.ResultsHash = flip(b.BlockHeader.LastQuorumCertificate.ResultsHash)
+				return false
+			}, rehash: true},
+			rejCase{name: "lastqc-signature-altered", stage: "check-last-certificate", mutate: func(b *lib.Block) bool {
+				b.BlockHeader.LastQuorumCertificate.Signature.Signature = flip(b.BlockHeader.LastQuorumCertificate.Signature.Signature)
+				return false
+			}, rehash: true},
+			rejCase{name: "lastqc-without-quorum", stage: "check-last-certificate", mutate: func(b *lib.Block) bool {
+				// re-sign the previous certificate with a single committee member
+				prev := c.Committed[h-1]
+				if prev == nil {
+					return true
+				}
+				vs, err := c.FSM.LoadCommittee(env.ChainID, prev.QC.Header.RootHeight)
+				if err != nil || len(vs.ValidatorSet.ValidatorSet) < 2 {
+					return true
+				}
+				one := keyIndexForPub(vs.ValidatorSet.ValidatorSet[len(vs.ValidatorSet.ValidatorSet)-1].PublicKey)
+				qc, err := env.MakeQC(vs, prev.QC.Header, prev.Block, prev.QC.Results, prev.QC.ProposerKey, []int{one})
+				if err != nil {
+					return true
+				}
+				qc.Block = nil
+				b.BlockHeader.LastQuorumCertificate = qc
+				return false
+			}, rehash: true},
+		)
+	}
+	// failing / undecodable transaction inside a replica block, at every position
+	for ti, t := range templates {
+		if t.fail == "" {
+			continue
+		}
+		if cfg.name == "small" && strings.Contains(t.name, "cert2") {
+			continue // would not fit next to the honest transactions
+		}
+		for pos := 0; pos <= len(honest.Transactions); pos++ {
+			ti, pos := ti, pos
+			cases = append(cases, rejCase{name: fmt.Sprintf("failing-tx[%s]@%d", t.name, pos), stage: "apply-block:failed-transactions", mutate: func(b *lib.Block) bool {
+				tx := templates[ti].build(w, 0, pos)
+				b.Transactions = append(append(append([][]byte{}, b.Transactions[:pos]...), tx), b.Transactions[pos:]...)
+				return false
+			}})
+		}
+	}
+	cases = append(cases,
+		rejCase{name: "undecodable-tx", stage: "apply-block:failed-transactions", mutate: func(b *lib.Block) bool {
+			b.Transactions = append(b.Transactions, []byte{0xff, 0xff, 0xff, 0x01})
+			return false
+		}},
+		rejCase{name: "duplicate-tx-in-block", stage: "apply-block:duplicate", mutate: func(b *lib.Block) bool {
+			b.Transactions = append(b.Transactions, b.Transactions[0])
+			return false
+		}},
+	)
+	if cfg.name == "small" {
+		cases = append(cases, rejCase{name: "oversize-replica-block", stage: "apply-block:max-block-size", mutate: func(b *lib.Block) bool {
+			for k := 0; k < 4; k++ {
+				b.Transactions = append(b.Transactions, c07lib.Send(4, 5, 7000+uint64(k), h, tstamp(h, 50, k)))
+			}
+			return false
+		}})
+	}
+	// every header field altered (hash recomputed so that the block is self-consistent)
+	hdrMut := map[string]func(hd *lib.BlockHeader){
+		"height":               func(hd *lib.BlockHeader) { hd.Height++ },
+		"network-id":           func(hd *lib.BlockHeader) { hd.NetworkId++ },
+		"num-txs":              func(hd *lib.BlockHeader) { hd.NumTxs++ },
+		"total-txs":            func(hd *lib.BlockHeader) { hd.TotalTxs++ },
+		"total-vdf-iterations": func(hd *lib.BlockHeader) { hd.TotalVdfIterations++ },
+		"last-block-hash":      func(hd *lib.BlockHeader) { hd.LastBlockHash = flip(hd.LastBlockHash) },
+		"state-root":           func(hd *lib.BlockHeader) { hd.StateRoot = flip(hd.StateRoot) },
+		"transaction-root":     func(hd *lib.BlockHeader) { hd.TransactionRoot = flip(hd.TransactionRoot) },
+		"validator-root":       func(hd *lib.BlockHeader) { hd.ValidatorRoot = flip(hd.ValidatorRoot) },
+		"next-validator-root":  func(hd *lib.BlockHeader) { hd.NextValidatorRoot = flip(hd.NextValidatorRoot) },
+		"proposer-address":     func(hd *lib.BlockHeader) { hd.ProposerAddress = env.Addr(env.BLS(1)).Bytes() },
+		"vdf":                  func(hd *lib.BlockHeader) { hd.Vdf = &crypto.VDF{Proof: []byte{1}, Output: []byte{2}, Iterations: 3} },
+		"hash-only":            nil,
+	}
+	var hnames []string
+	for n := range hdrMut {
+		hnames = append(hnames, n)
+	}
+	sort.Strings(hnames)
+	for _, n := range hnames {
+		n := n
+		cases = append(cases, rejCase{name: "header-" + n, stage: "apply-block:header-compare", mutate: func(b *lib.Block) bool {
+			if hdrMut[n] == nil {
+				b.BlockHeader.Hash = flip(b.BlockHeader.Hash)
+				return false
+			}
+			hdrMut[n](b.BlockHeader)
+			return false
+		}, rehash: n != "hash-only"})
+	}
+	// a transaction dropped from / a transaction swapped in an otherwise honest block (results mismatch at the state root)
+	cases = append(cases,
+		rejCase{name: "tx-removed-header-kept", stage: "apply-block:header-compare", mutate: func(b *lib.Block) bool {
+			b.Transactions = b.Transactions[:len(b.Transactions)-1]
+			return false
+		}},
+		rejCase{name: "tx-order-swapped-header-kept", stage: "apply-block:header-compare", mutate: func(b *lib.Block) bool {
+			b.Transactions[0], b.Transactions[1] = b.Transactions[1], b.Transactions[0]
+			return false
+		}},
+		rejCase{name: "abort-after-index-qc", stage: "commit:after-index-qc", abort: "index-qc", mutate: func(b *lib.Block) bool { return false }},
+		rejCase{name: "abort-after-index-block", stage: "commit:after-index-block", abort: "index-block", mutate: func(b *lib.Block) bool { return false }},
+	)
+
+	for _, cs := range cases {
+		b := cloneBlock(honest)
+		if cs.mutate(b) {
+			continue
+		}
+		if cs.rehash {
+			b.BlockHeader.Hash = nil
+			if _, e := b.BlockHeader.SetHash(); e != nil {
+				return Result{Err: e.Error()}
+			}
+		}
+		_, e := c07lib.ReplicaCommit(c, b, 0, nil, cs.abort)
+		if e == nil {
+			// not a rejection: the altered block is a different valid block. Nothing to assert for C07; the chain moved on, stop here.
+			res.Accepted = append(res.Accepted, cs.name)
+			res.Notes = append(res.Notes, fmt.Sprintf("state=%v: case %s was ACCEPTED by the replica path (no rejection to check)", recipeList(j.Path), cs.name))
+			return
+		}
+		res.Rejections++
+		res.RejStages[cs.stage]++
+		post, e2 := takeSnapshot(c)
+		if e2 != nil {
+			viol("C07:rejection:state-unreadable:"+cs.stage, fmt.Sprintf("state=%v case=%s: %v", recipeList(j.Path), cs.name, e2), cs.name)
+			return
+		}
+		where := fmt.Sprintf("state=%v cfg=%s height=%d case=%s (rejected with: %s)", recipeList(j.Path), cfg.name, h, cs.name, strings.ReplaceAll(e.Error(), "\n", " "))
+		if post.version != pre.version {
+			viol("C07:rejection:store-version-moved:"+cs.stage, where, cs.name)
+		}
+		if post.live != pre.live {
+			viol("C07:rejection:working-state-changed:"+cs.stage, where+": "+stateDiff(post.live, pre.live), cs.name)
+		}
+		if post.committed != pre.committed {
+			viol("C07:rejection:committed-state-changed:"+cs.stage, where+": "+stateDiff(post.committed, pre.committed), cs.name)
+		}
+		if post.index != pre.index {
+			viol("C07:rejection:indexer-changed:"+cs.stage, where+fmt.Sprintf(": got %s want %s", post.index, pre.index), cs.name)
+		}
+		if qc, e := c.Store.GetQCByHeight(h); e == nil && qc != nil && qc.Header != nil && qc.Header.Height == h {
+			viol("C07:rejection:certificate-readable:"+cs.stage, where+": a certificate is readable at the rejected height", cs.name)
+		}
+		if blk, e := c.Store.GetBlockByHeight(h); e == nil && blk != nil && blk.BlockHeader != nil && blk.BlockHeader.Height == h {
+			if cs.abort == "index-block" {
+				// a failing Commit is not a validation stage; reported as a note, see final report
+				res.Notes = append(res.Notes, "after an abort between IndexBlock and Commit the process-wide block cache still serves the uncommitted block at that height")
+			} else {
+				viol("C07:rejection:block-readable:"+cs.stage, where+": a block is readable at the rejected height", cs.name)
+			}
+		}
+		// the honest block must still validate to the header computed before the rejection
+		if _, e := c07lib.ReplicaApply(c, cloneBlock(honest)); e != nil {
+			viol("C07:rejection:honest-block-refused-afterwards:"+cs.stage, where+": "+strings.ReplaceAll(e.Error(), "\n", " "), cs.name)
+		} else {
+			kvs, _ := env.RawState(c.FSM)
+			if d := dumpKVs(kvs); d != dumpKVs(hp.State) {
+				viol("C07:rejection:honest-block-state-differs-afterwards:"+cs.stage, where+": "+stateDiff(d, dumpKVs(hp.State)), cs.name)
+			}
+		}
+		c.FSM.Reset()
+		if len(res.Viols) > 3 {
+			return
+		}
+	}
+	// finally commit the honest block for real
+	root, e := c07lib.ReplicaCommit(c, cloneBlock(honest), 0, nil, "")
+	if e != nil {
+		viol("C07:rejection:honest-block-refused-afterwards:final-commit", fmt.Sprintf("state=%v cfg=%s: %v", recipeList(j.Path), cfg.name, e), "final")
+		return
+	}
+	res.Commits++
+	if !bytes.Equal(root, honest.BlockHeader.StateRoot) {
+		viol("C07:rejection:root-after-rejections-differs", fmt.Sprintf("state=%v cfg=%s: committed root %x, root computed before the rejections %x", recipeList(j.Path), cfg.name, root, honest.BlockHeader.StateRoot), "final")
+	}
+	kvs, _ := env.RawState(c.FSM)
+	if d := dumpKVs(kvs); d != dumpKVs(hp.State) {
+		viol("C07:rejection:state-after-rejections-differs", fmt.Sprintf("state=%v cfg=%s: %s", recipeList(j.Path), cfg.name, stateDiff(d, dumpKVs(hp.State))), "final")
+	}
+	if res.Sample == nil {
+		res.Sample = map[string]any{"cfg": cfg.name, "state": recipeList(j.Path), "height": h, "rejections": res.Rejections, "stages": res.RejStages, "root_after": hex.EncodeToString(root)}
+	}
+	return
+}
+
+// ---------------------------------------------------------------------------------------
+
+func main() {
+	if mc.IsWorker() {
+		mc.ServeWorker(handle)
+	}
+	r := mc.Start("C07", "model_checking", 85*time.Second, 25*time.Minute)
+	r.Assumptions = []string{
+		"direct path: the store/FSM calls of Mempool.CheckMempool (proposer) and of CommitCertificate/ApplyAndValidateBlock/CheckAndSetLastCertificate (replica) are written out in the harness; mempool, p2p, bft and controller.ValidateProposal/HandlePeerBlock are not executed (no controller-level node in env yet)",
+		"the Reset calls on the rejection path are placed where CommitCertificate places them (before apply, deferred after any error); what is checked is that FSM.Reset restores everything, not that the controller calls it",
+		"certificates are really signed by the committee; BLS, ed25519 and the hash are trusted",
+		"one chain per worker process; proposer-path runs use FSM.Copy of that chain (as the mempool does)",
+		"plugins are absent; protocol version 2 from genesis",
+	}
+	if r.Replay != "" {
+		doReplay(r)
+		return
+	}
+	pool := mc.NewProcPool(0)
+	maxDepth, maxLen := 2, 3
+	cfgNames := []string{"std", "small"}
+	cov := map[string]any{}
+	type st struct {
+		cfg   string
+		path  []int
+		depth int
+	}
+	var states []st
+	totalStates := 0
+	for _, cn := range cfgNames {
+		bs := mc.ReplayBFS(mc.BFSConfig{Tag: cn, NumOps: len(recipeNames), MaxDepth: maxDepth, Pool: pool, OnViol: r.OnViol, Stop: r.Expired,
+			OnState: func(path []int, _ *mc.ExecResult) { states = append(states, st{cn, append([]int{}, path...), len(path)}) }})
+		totalStates += bs.States
+		cov["bfs_"+cn] = map[string]any{"states": bs.States, "frontier_per_depth": bs.Frontier, "disabled": bs.Disabled, "revisits": bs.Revisits, "complete": bs.Complete}
+		fmt.Printf("recipe BFS cfg=%s depth<=%d: states=%d frontier=%v disabled=%d revisits=%d complete=%v\n", cn, maxDepth, bs.States, bs.Frontier, bs.Disabled, bs.Revisits, bs.Complete)
+		if !bs.Complete {
+			r.Exhaustive = false
+		}
+	}
+	// quick: the small-block configuration only on the states at depth <= 1
+	sort.SliceStable(states, func(a, b int) bool {
+		if states[a].depth != states[b].depth {
+			return states[a].depth < states[b].depth
+		}
+		return states[a].cfg == "std" && states[b].cfg != "std"
+	})
+	var jobs []Job
+	// failure-point instrumentation on the genesis state and on one deeper state
+	jobs = append(jobs, Job{Kind: "fp", Cfg: "std", Path: []int{}}, Job{Kind: "fp", Cfg: "std", Path: []int{1}})
+	for _, s := range states {
+		if r.Quick() && s.cfg == "small" && s.depth > 1 {
+			continue
+		}
+		jobs = append(jobs, Job{Kind: "o2", Cfg: s.cfg, Path: s.path})
+		for f := range templates {
+			jobs = append(jobs, Job{Kind: "o1", Cfg: s.cfg, Path: s.path, First: f, MaxLen: maxLen})
+		}
+	}
+	fmt.Printf("jobs: %d over %d states\n", len(jobs), len(states))
+	results, crashed := mc.Map[Job, Result](pool, jobs, r.Expired)
+	var blocks, withFail, withOver, failingTxs, replicaRuns, commits, rejections, done, distinct int
+	stages := map[string]int{}
+	accepted := map[string]int{}
+	statesDone := map[string]bool{}
+	notes := map[string]bool{}
+	fps := map[string]map[string]string{}
+	for i, res := range results {
+		if crashed[i] {
+			r.Violation("C07:worker-crash", fmt.Sprintf("worker died twice on job %+v", jobs[i]), jobs[i])
+			continue
+		}
+		if res == nil {
+			continue
+		}
+		done++
+		for _, v := range res.Viols {
+			r.OnViol(v)
+		}
+		if res.Err != "" {
+			r.Violation("C07:harness-error", fmt.Sprintf("job %+v: %s", jobs[i], res.Err), jobs[i])
+			continue
+		}
+		blocks += res.Blocks
+		withFail += res.WithFailing
+		withOver += res.WithOversize
+		failingTxs += res.FailingTxs
+		replicaRuns += res.ReplicaRuns
+		commits += res.Commits
+		rejections += res.Rejections
+		distinct += res.DistinctPost
+		for k, v := range res.RejStages {
+			stages[k] += v
+		}
+		for _, a := range res.Accepted {
+			accepted[a]++
+		}
+		for _, n := range res.Notes {
+			notes[n] = true
+		}
+		if res.FailurePoints != nil {
+			fps[fmt.Sprintf("state=%v", recipeList(jobs[i].Path))] = res.FailurePoints
+		}
+		if res.Sample != nil && (i%7 == 0 || len(r.Samples) < 2) {
+			r.AddSample(res.Sample)
+		}
+		statesDone[fmt.Sprint(jobs[i].Cfg, jobs[i].Path)] = true
+	}
+	if done < len(jobs) {
+		r.Exhaustive = false
+		r.Note("stopped at %d of %d jobs (deadline); states are processed in order of depth", done, len(jobs))
+	}
+	for n := range notes {
+		r.Note("%s", n)
+	}
+	for s, m := range fps {
+		for t, v := range m {
+			fmt.Printf("failure point %s %-24s %s\n", s, t, v)
+		}
+	}
+	fmt.Printf("O1: %d blocks with dropped transactions (%d with failing txs, %d with size-excluded txs; %d failing txs in total) on %d states; %d replica-path reference runs; %d commits; %d distinct post-states\n",
+		blocks, withFail, withOver, failingTxs, len(statesDone), replicaRuns, commits, distinct)
+	fmt.Printf("O2: %d rejections by stage %v; accepted (not rejections) %v\n", rejections, stages, accepted)
+	var tnames []map[string]string
+	for _, t := range templates {
+		tnames = append(tnames, map[string]string{"name": t.name, "fails": t.fail, "intended_point": t.where})
+	}
+	cov["states"] = totalStates
+	cov["transitions"] = blocks + rejections
+	cov["traces_validated_against_impl"] = blocks + rejections
+	cov["explanation"] = "states = distinct chain states of the recipe BFS (both block-size configurations); a transition = one whole block executed by canopy on such a state (proposer-path block with dropped transactions, or rejected replica block); every one is compared with canopy's own run of the reduced block / with the pre-call dumps"
+	cov["o1_blocks"] = blocks
+	cov["o1_blocks_with_failing_tx"] = withFail
+	cov["o1_blocks_with_size_excluded_tx"] = withOver
+	cov["o1_failing_txs"] = failingTxs
+	cov["o1_reference_replica_runs"] = replicaRuns
+	cov["o1_distinct_post_states_sum_over_jobs"] = distinct
+	cov["commits"] = commits
+	cov["o2_rejections"] = rejections
+	cov["o2_rejections_by_stage"] = stages
+	cov["o2_accepted_variants"] = accepted
+	cov["states_with_work_done"] = len(statesDone)
+	cov["templates"] = tnames
+	cov["failure_points_instrumented"] = fps
+	cov["recipes"] = recipeNames
+	cov["bounds"] = map[string]any{"recipe_depth": maxDepth, "block_len": maxLen, "templates": len(templates), "small_block_tx_bytes": configs["small"].sizeExtra}
+	r.Finish(cov)
+}
+
+func doReplay(r *mc.Run) {
+	var a replayArt
+	if err := r.LoadReplay(&a); err != nil {
+		fmt.Println("cannot load replay:", err)
+		r.Finish(map[string]any{"states": 1, "transitions": 1, "traces_validated_against_impl": 0})
+	}
+	n := 0
+	for i := 0; i < 5; i++ {
+		var res Result
+		if a.Kind == "o2" {
+			res = o2Job(Job{Kind: "o2", Cfg: a.Cfg, Path: a.Path})
+		} else {
+			res = o1Job(Job{Kind: "o1", Cfg: a.Cfg, Path: a.Path, Seq: a.Seq, MaxLen: 3})
+		}
+		for _, v := range res.Viols {
+			r.OnViol(v)
+			n++
+		}
+		if res.Err != "" {
+			fmt.Println("replay error:", res.Err)
+		}
+	}
+	fmt.Printf("replay: %d violations in 5 runs\n", n)
+	r.Finish(map[string]any{"states": 1, "transitions": 5, "traces_validated_against_impl": 5})
 }
